@@ -115,6 +115,15 @@ def pad (s pw : List Nat) : Option (List Nat) :=
     some ((List.range s.length).map (fun k => s.getD k 0 + pw.getD k 0 + pw.getD (s.length + k) 0))
   else none
 
+/-- `np.matmul(a, b).shape` for operands of rank ≥ 2: the last two axes contract, the leading (batch) axes broadcast -/
+def matmulShape (a b : List Nat) : Option (List Nat) :=
+  if a.length < 2 ∨ b.length < 2 then none
+  else
+    let (ba, ma) := (a.take (a.length - 2), a.drop (a.length - 2))
+    let (bb, mb) := (b.take (b.length - 2), b.drop (b.length - 2))
+    if ma.getD 1 0 ≠ mb.getD 0 0 then none
+    else (broadcastShape ba bb).map (fun r => r ++ [ma.getD 0 0, mb.getD 1 0])
+
 /-- length of the Python slice `start:stop:step` on an axis of extent `n`, for `0 ≤ start, stop ≤ n`, `step ≥ 1`
     (absent entries default to `0`, `n`, `1`) -/
 def sliceLen (n : Nat) (start stop step : Option Nat) : Nat :=
@@ -163,5 +172,119 @@ def vSum (s : List Nat) (axis : Int) : Option ArrV :=
   (normAxis s.length axis).map (fun k =>
     let r := (s.take k) ++ (s.drop (k + 1))
     tabulate r (fun o => ((List.range (s.getD k 0)).map (fun t => iotaAt s 0 (o.take k ++ [t] ++ o.drop k))).foldl (· + ·) 0))
+
+/-! ### more views (round 4): every function below is the NumPy definition over provenance data;
+    operand `k` holds `1000*k + flat id`, the condition operand of `where` holds `flat id % 2`,
+    the fill value of `pad` is `9999` -/
+
+def fillValue : Nat := 9999
+
+/-- `np.broadcast_to(x, t)` -/
+def vBroadcastTo (s t : List Nat) : Option ArrV :=
+  (broadcastTo s t).map (fun r => tabulate r (fun o => iotaAt s 0 (bsrc s o)))
+
+/-- `np.broadcast_arrays(x, y)` -/
+def vBroadcastArrays (a b : List Nat) : Option (ArrV × ArrV) :=
+  (broadcastShape a b).map (fun r =>
+    (tabulate r (fun o => iotaAt a 0 (bsrc a o)), tabulate r (fun o => iotaAt b 1000 (bsrc b o))))
+
+/-- `np.repeat(x, r, axis)` with a scalar `r` -/
+def vRepeat (s : List Nat) (r : Nat) (axis : Option Int) : Option ArrV :=
+  match axis with
+  | none => some ([prod s * r], (List.range (prod s * r)).map (fun k => k / r))
+  | some a => (normAxis s.length a).map (fun k =>
+      tabulate (s.set k (s.getD k 0 * r)) (fun o => iotaAt s 0 (o.set k (o.getD k 0 / r))))
+
+/-- `np.pad(x, ..., constant_values=fill)`; `pw` in the layout `[begin_0.., end_0..]` -/
+def vPad (s pw : List Nat) : Option ArrV :=
+  (pad s pw).map (fun r => tabulate r (fun o =>
+    if (List.range s.length).all (fun j => pw.getD j 0 ≤ o.getD j 0 ∧ o.getD j 0 < pw.getD j 0 + s.getD j 0)
+    then iotaAt s 0 ((List.range s.length).map (fun j => o.getD j 0 - pw.getD j 0))
+    else fillValue))
+
+/-- `x[a0:b0:c0, a1:b1:c1]` on a 2-d array, non-negative entries -/
+def vSlice2 (s : List Nat) (s0 s1 : Option Nat × Option Nat × Option Nat) : Option ArrV :=
+  match s with
+  | [n0, n1] =>
+    let r := [sliceLen n0 s0.1 s0.2.1 s0.2.2, sliceLen n1 s1.1 s1.2.1 s1.2.2]
+    some (tabulate r (fun o => iotaAt s 0
+      [s0.1.getD 0 + o.getD 0 0 * s0.2.2.getD 1, s1.1.getD 0 + o.getD 1 0 * s1.2.2.getD 1]))
+  | _ => none
+
+/-- `np.flip(x, axis)`; `none` flips every axis -/
+def vFlip (s : List Nat) (axes : Option (List Int)) : Option ArrV :=
+  let ks := match axes with
+    | none => some (List.range s.length)
+    | some ax => normAxes s.length ax
+  ks.map (fun ks => tabulate s (fun o => iotaAt s 0
+    ((List.range s.length).map (fun j => if ks.contains j then s.getD j 0 - 1 - o.getD j 0 else o.getD j 0))))
+
+/-- insert `1` at the (sorted, normalised) positions `ks` of the result -/
+def insertOnes (s : List Nat) (ks : List Nat) (n : Nat) : List Nat :=
+  ((List.range n).foldl (fun (acc : List Nat × List Nat) j =>
+    if ks.contains j then (acc.1 ++ [1], acc.2)
+    else (acc.1 ++ [acc.2.headD 0], acc.2.tail)) ([], s)).1
+
+/-- `np.expand_dims(x, axes)` -/
+def vExpandDims (s : List Nat) (axes : List Int) : Option ArrV :=
+  let n := s.length + axes.length
+  (normAxes n axes).bind (fun ks =>
+    if ks.eraseDups.length ≠ ks.length then none
+    else some (insertOnes s ks n, List.range (prod s)))
+
+/-- `np.squeeze(x)` -/
+def vSqueeze (s : List Nat) : ArrV := (s.filter (· ≠ 1), List.range (prod s))
+
+/-- `np.concatenate((x, y), axis)` -/
+def vConcatenate (a b : List Nat) (axis : Option Int) : Option ArrV :=
+  match axis with
+  | none => some ([prod a + prod b], List.range (prod a) ++ (List.range (prod b)).map (· + 1000))
+  | some ax => (concatenate a b axis).bind (fun r => (normAxis a.length ax).map (fun k =>
+      tabulate r (fun o => if o.getD k 0 < a.getD k 0 then iotaAt a 0 o
+                            else iotaAt b 1000 (o.set k (o.getD k 0 - a.getD k 0)))))
+
+/-- `np.where(c, x, y)`; `c` holds `flat id % 2`, `x` holds `1000..`, `y` holds `2000..` -/
+def vWhere (c x y : List Nat) : Option ArrV :=
+  (broadcastShapes [c, x, y]).map (fun r => tabulate r (fun o =>
+    if iotaAt c 0 (bsrc c o) % 2 ≠ 0 then iotaAt x 1000 (bsrc x o) else iotaAt y 2000 (bsrc y o)))
+
+/-- `np.matmul(x, y)` for operands of rank ≥ 2 -/
+def vMatmul (a b : List Nat) : Option ArrV :=
+  (matmulShape a b).map (fun r =>
+    let nb := r.length - 2
+    let ba := a.take (a.length - 2)
+    let bb := b.take (b.length - 2)
+    let kk := a.getD (a.length - 1) 0
+    tabulate r (fun o =>
+      let ob := o.take nb
+      let i := o.getD nb 0
+      let j := o.getD (nb + 1) 0
+      ((List.range kk).map (fun t =>
+        iotaAt a 0 (bsrc ba ob ++ [i, t]) * iotaAt b 1000 (bsrc bb ob ++ [t, j]))).foldl (· + ·) 0))
+
+/-- interleave: position `j` of the result takes the next entry of `t` when `mask[j]`, else the next entry of `o` -/
+def mergeIdx : List Bool → List Nat → List Nat → List Nat
+  | [], _, _ => []
+  | true :: m, o, t => t.headD 0 :: mergeIdx m o t.tail
+  | false :: m, o, t => o.headD 0 :: mergeIdx m o.tail t
+
+/-- `np.sum(x, axis, keepdims)`; `axes = none` reduces everything -/
+def vSumK (s : List Nat) (axes : Option (List Int)) (keepdims : Bool) : Option ArrV :=
+  let ks := match axes with
+    | none => some (List.range s.length)
+    | some ax => normAxes s.length ax
+  ks.bind (fun ks =>
+    if ks.eraseDups.length ≠ ks.length then none else
+    let mask := (List.range s.length).map (fun j => ks.contains j)
+    let red := ((List.range s.length).filter (fun j => ks.contains j)).map (fun j => s.getD j 0)
+    let keep := ((List.range s.length).filter (fun j => !ks.contains j)).map (fun j => s.getD j 0)
+    let r := if keepdims then (List.range s.length).map (fun j => if ks.contains j then 1 else s.getD j 0) else keep
+    some (r, (allIdx keep).map (fun o => ((allIdx red).map (fun t => iotaAt s 0 (mergeIdx mask o t))).foldl (· + ·) 0)))
+
+/-- `np.take(x, indices, axis)` with a 1-d index list -/
+def vTake (s : List Nat) (ind : List Nat) (axis : Int) : Option ArrV :=
+  (normAxis s.length axis).bind (fun k =>
+    if ind.any (fun i => s.getD k 0 ≤ i) then none
+    else some (tabulate (s.set k ind.length) (fun o => iotaAt s 0 (o.set k (ind.getD (o.getD k 0) 0)))))
 
 end NmVerif.KindRefs
